@@ -609,7 +609,7 @@ pub fn check_c17_mcp(c: &crate::props::c17::Case, obs: &mut Obs) -> Verdict {
 
 fn strat_c17_mcp(t: Tier) -> BoxedStrategy<crate::props::c17::Case> {
     let cfg = GenCfg::basic().secs(2).days(2, t.pick(8, 14)).splits(SplitMode::Terminating).dividends(true).years(2015, 2023);
-    (lgen::ledger_strategy(cfg), 0u8..2).prop_map(|(gl, mode)| crate::props::c17::Case { gl, mode }).boxed()
+    (lgen::ledger_strategy(cfg), 0u8..2).prop_map(|(gl, mode)| crate::props::c17::Case { gl, mode, cur: vec![] }).boxed()
 }
 
 pub fn c17_mcp(ctx: &Ctx) -> bool {
